@@ -84,7 +84,7 @@ Definition check (c : case) : outcome :=
                         && match i_disclosed c with [] => true | _ => false end
                         && ((i_status c =? 401)%N || (i_status c =? 400)%N || (i_status c =? 0)%N
                             || (rq_public rq && is_write_method m)));
-     o_trig := if trig_delete_unparsed rq then Some 0%N else None;
+     o_trig := None;   (* finding 0 (DeleteHandler ignoring the parse errors) is repaired: no trigger *)
      o_nontrivial := negb (sempty (key_for (c_cfg c) (is_write_method m)))
                      && negb (match c_presented c with [] => true | _ => false end) |}.
 
